@@ -29,6 +29,10 @@ def run_shared(prop, invs, tier, seed, level_note, with_d=False):
         # trace validation of the same runs
         from . import ptrace
         t_ok, t_rej, tstates = ptrace.validate(obs, sd)
+        suite_cov = {}
+        if tier == "thorough":
+            from . import suite
+            suite_cov = suite.check(v, prop, sd)
     for ob, inv in fails:
         if inv not in invs:
             continue
@@ -59,6 +63,7 @@ def run_shared(prop, invs, tier, seed, level_note, with_d=False):
         "obs_checked_by_tlc": n_ok + len(fails), "obs_states": ostates,
         "trace_states": tstates, "exhaustive": tier == "thorough",
     }
+    cov.update(suite_cov)
     return v.finish("model_checking", cov, [level_note])
 
 
